@@ -361,10 +361,13 @@ def make_class(kind: str) -> Any:
             pass
         return LocalErr
     if kind == "dynamic":
-        return type("DynErr", (Exception,), {"__module__": "nowhere.at.all"})
+        # a class the loading process cannot resolve: its module does not exist, cannot be imported here, or has an odd name
+        _DYN[0] += 1
+        return type("DynErr", (Exception,), {"__module__": ("nowhere.at.all", "verif_worker_only", "", ".plugins")[_DYN[0] % 4]})
     raise ValueError(kind)
 
 
+_DYN = [0]
 IMPORTABLE = {"builtin", "builtin2", "module", "nested", "baseonly", "eqhash", "dcerr", "attr"}
 
 
